@@ -116,11 +116,18 @@ def main():
                 latest.update(out)
                 views = [("the evaluating process", None)]
                 if kind != "memory":
+                    # every other long-lived store object on the same directories (another process that stays alive) ...
+                    for w2 in sorted(writers):
+                        if w2 != w:
+                            views.append(("the long-lived store object of writer %s" % w2, (lambda w2=w2: setattr(api, "_store_var", writers[w2]))))
+                    # ... and a process started now
                     views.append(("a freshly created store object", configure))
                 for who, reconf in views:
                     if reconf:
                         reconf()
-                    for p, want in latest.items():
+                    # (a long-lived object is asked for the most recently kept paths first: what it may remember of them is
+                    #  not yet displaced by the other questions)
+                    for p, want in (reversed(list(latest.items())) if who.startswith("the long-lived") else latest.items()):
                         try:
                             got = dds.load(p)
                         except BaseException as e:
@@ -132,7 +139,7 @@ def main():
         dds.set_store("memory")
         sys.path.remove(tmp)
         shutil.rmtree(tmp, ignore_errors=True)
-    print(json.dumps({"scope": "5 store kinds x 5 histories (20 evaluations; one with two long-lived store objects on the same directories) of two pipelines over 6 kept paths of 1..4 segments with shared directories; every path kept so far loaded after every evaluation, also through a fresh store object",
+    print(json.dumps({"scope": "5 store kinds x 5 histories (20 evaluations; one with two long-lived store objects on the same directories) of two pipelines over 6 kept paths of 1..4 segments with shared directories; every path kept so far loaded after every evaluation, also through every other long-lived store object and through a fresh one",
                       "evaluations": evals, "distinct_nontrivial": evals, "rule": "one case per (store kind, history, step)", "samples": [{"store": "local+cache", "history": HISTORIES[1]}], "violations": violations, "known_hits": []}))
 
 
